@@ -2,7 +2,8 @@ IMPORTS = """From Coq Require Import List Bool Arith NArith Lia Relations Permut
 Import ListNotations.
 From BB Require Import BN Brute SpaceFacts TrapFacts PercolateFacts AttractorFacts Diagram Invariants Checks Filter
   Strict PetriNet Control Meta FilterFacts PetriNetFacts TrappistFacts DiagramStruct DiagramSem1 DiagramCache
-  DiagramDepth DiagramComplete Termination ControlFacts MetaFacts Candidates StrictFacts MinExpandFacts CandidatesFacts SymbolicTest SymbolicTestFacts Signed ReductionFacts ControlFacts2 Main Blocks BlocksFacts ObsFacts OwnerFacts CandidatesTerm."""
+  DiagramDepth DiagramComplete Termination ControlFacts MetaFacts Candidates StrictFacts MinExpandFacts CandidatesFacts SymbolicTest SymbolicTestFacts Signed ReductionFacts ControlFacts2 Main Blocks BlocksFacts ObsFacts OwnerFacts CandidatesTerm
+  PartialOwner BlockMath BlockComplete ASeeds ASeedsFacts LogChecks SkipRule SkipRuleFacts Names NamesFacts Perm PermFacts."""
 
 EX_NET = """
 (* non-vacuity: two bistable switches; x0'=x1, x1'=x0, x2'=x3, x3'=x2 *)
@@ -17,9 +18,12 @@ Model: Filter.compute_attractors_filter is the model of compute_attractors_symbo
 reachability filter); the candidate list it receives is required to cover the node's attractors
 (property C08).  Checks.check_seeds is the predicate evaluated on the implementation's seeds.
 OwnerFacts: in a fully expanded diagram every attractor has exactly one owner node, so per-node one-to-one
-seeds give a global one-to-one correspondence (global_one_to_one).  PARTIAL: for block and attractor-seed
-expansion the models (Blocks.v, ASeeds.v) are replayed against the code but the global bijection is decided by
-the verdicts; the source-SCC strategy is not modelled and has the known finding D15.""",
+seeds give a global one-to-one correspondence (global_one_to_one).  Block expansion and attractor-seed expansion
+leave stubs: PartialOwner generalises the owner theory to expanded owners; BlockComplete / ASeedsFacts prove that a
+run reporting completion leaves no attractor unserved (expand_block_one_to_one, expand_aseeds_one_to_one), under
+the contract of the recorded tape -- every block reported clean has no motif-avoidant attractor
+(BlockMath.block_clean), every NFVS hits every negative cycle -- which the extracted LogChecks predicates
+decide on every replayed run.  PARTIAL: the source-SCC strategy is not modelled and has the known finding D15.""",
  theorems=[("filter_exact", "filter_exact", "given covering candidates, the filter returns exactly one seed per attractor of the node, and the sets are the attractors"),
            ("filter_exact_seeds_only", "filter_exact_seeds_only", "the seeds_only shortcut (last candidate of a pseudo-minimal node) is sound"),
            ("check_seeds_ok", "check_seeds_ok", "the verdict predicate run on the implementation's output is exact"),
@@ -33,12 +37,35 @@ the verdicts; the source-SCC strategy is not modelled and has the known finding 
            ("pipeline_then_filter_exact", "pipeline_then_filter_exact", "candidate pipeline + filter = one seed per attractor of the node, given an NFVS"),
            ("nfvs_reduction", "nfvs_reduction", None),
            ("owner_exists", "owner_exists", "every attractor has an owner node in the fully expanded diagram"),
-           ("owner_unique", "owner_unique", "... and only one"), ("global_one_to_one", "global_one_to_one", "per-node exactness gives the global bijection")],
+           ("owner_unique", "owner_unique", "... and only one"), ("global_one_to_one", "global_one_to_one", "per-node exactness gives the global bijection"),
+           ("partial_one_to_one", "partial_one_to_one", "diagrams with stubs: seeds of the EXPANDED nodes are one-to-one with the attractors once every attractor has an expanded owner"),
+           ("owner_unique_partial", "owner_unique_partial", None),
+           ("ff_form_owns_nothing", "ff_form_owns_nothing", "source shortcut: the node whose successors are the source valuations owns no attractor (its seeds are set to [])"),
+           ("clean_block_covers", "clean_block_covers", "the clean-block argument: if the block sub-network has no motif-avoidant attractor, every attractor of the node lies in a motif of that block"),
+           ("proj_attractor", "proj_attractor", "attractors project onto a regulator-closed block"),
+           ("block_expansion_attractors_served", "expand_block_AttrServed", None),
+           ("block_expansion_emptied_sound", "expand_block_emptied_sound", "nodes whose seeds block expansion sets to [] own nothing"),
+           ("block_expansion_one_to_one", "expand_block_one_to_one", "block expansion with motif-avoidance checks, reporting completion, honest is_clean tape"),
+           ("clean_log_check_exact", "clean_log_ok_b_spec", "the run-time check of the is_clean tape is exact"),
+           ("pruned_successor_hides_nothing", "no_new_candidate_sound", "attractor-seed expansion: a successor without new candidates contains no attractor outside the expanded siblings"),
+           ("aseeds_expansion_attractors_served", "expand_aseeds_AttrServed", None),
+           ("aseeds_expansion_one_to_one", "expand_aseeds_one_to_one", "attractor-seed expansion from any diagram reached by plain operations"),
+           ("nfvs_log_check_exact", "nfvs_log_ok_b_spec", "the run-time check of the NFVS tape is exact")],
  examples=EX_NET + """
 Example C01_example_attractors : length (attractors_b ex_sw) = 4.
 Proof. vm_compute. reflexivity. Qed.
 Example C01_example_filter : fst (compute_attractors_filter ex_sw false [] (all_states 4)) <> [].
 Proof. vm_compute. discriminate. Qed.
+(* the hypotheses of expand_block_one_to_one / expand_aseeds_one_to_one are met by concrete runs *)
+Example C01_example_block : snd (expand_block 100 ex_sw ex_cfg (init ex_sw) true true None (repeat true 20)) = RBool true /\\
+  clean_log_ok_b ex_sw (fst (expand_block_log 100 ex_sw ex_cfg (init ex_sw) true true None (repeat true 20))) = true /\\
+  length (fst (expand_block_log 100 ex_sw ex_cfg (init ex_sw) true true None (repeat true 20))) = 3.
+Proof. vm_compute. repeat split; reflexivity. Qed.
+Example C01_example_aseeds :
+  snd (expand_aseeds 100 ex_sw ex_cfg (init ex_sw) None (min_traps_b ex_sw (top_space 4)) (repeat [] 9)) = RBool true /\\
+  nfvs_log_ok_b ex_sw (expand_aseeds_log 100 ex_sw ex_cfg (init ex_sw) None (min_traps_b ex_sw (top_space 4)) (repeat [] 9)) = true /\\
+  length (expand_aseeds_log 100 ex_sw ex_cfg (init ex_sw) None (min_traps_b ex_sw (top_space 4)) (repeat [] 9)) = 2.
+Proof. vm_compute. repeat split; reflexivity. Qed.
 """)
 
 SPEC["C02"] = dict(title="A fully expanded diagram is exactly the hierarchy of percolated trap spaces", comment="""
@@ -61,10 +88,11 @@ Proof. eexists. split. vm_compute. reflexivity. vm_compute. reflexivity. Qed.
 SPEC["C03"] = dict(title="Every complete expansion strategy finds exactly the minimal trap spaces", comment="""
 Proved for BFS and DFS completion from any diagram reachable by plain operations (bfs_complete /
 dfs_complete need only the invariants that run_invariants establishes), for minimal-space expansion
-(expand_min_exact / expand_min_complete) and for completion by skip_remaining.  PARTIAL: for attractor-seed,
-block and source-SCC expansion the statement is decided by the correspondence run (models ASeeds.v /
-Blocks.v replayed against the code) plus the comparison of minimal_trap_spaces() with Brute.min_traps_b,
-whose exactness is min_traps_b_spec.""",
+(expand_min_exact / expand_min_complete), for completion by skip_remaining, for source-block expansion from a fresh
+diagram with every option combination and ANY tape (expand_block_MinFound: independence of minimal source blocks,
+BlockMath.min_trap_in_block / same_child_same_block) and for attractor-seed expansion from any plainly reached diagram
+(expand_aseeds_MinFound).  PARTIAL: the source-SCC strategy is decided by the comparison of minimal_trap_spaces()
+with Brute.min_traps_b (exact by min_traps_b_spec) only.""",
  theorems=[("bfs_complete", "bfs_complete", None), ("dfs_complete", "dfs_complete", None),
            ("leaves_are_min_traps", "hierarchy_leaves", None), ("min_traps_spec", "min_traps_b_spec", "the oracle for minimal trap spaces is exact"),
            ("min_trap_exists", "min_trap_exists", None), ("min_trap_closed", "min_trap_closed", None),
@@ -75,10 +103,22 @@ whose exactness is min_traps_b_spec.""",
            ("skip_remaining_exact", "skip_remaining_exact", "completion of an early-stopped diagram by skip_remaining"),
            ("leaves_always_minimal", "run_LeafOK", "in every reachable diagram (any history) an expanded node without successors is a minimal trap space"),
            ("no_duplicates", "minimal_nodes_unique", None),
-           ("block_expansion_leaves_minimal", "expand_block_LeafOK_strong", "source-block expansion (model Blocks.v, replayed against the code): every leaf is a minimal trap space")],
+           ("block_expansion_leaves_minimal", "expand_block_LeafOK_strong", "source-block expansion (model Blocks.v, replayed against the code): every leaf is a minimal trap space"),
+           ("block_closed", "block_of_closed", "the block of a motif is closed under regulators and contains the motif's variables"),
+           ("trap_spaces_project", "proj_trap", "trap spaces project onto a regulator-closed block"),
+           ("min_trap_in_block", "min_trap_in_block", "independence of minimal source blocks: every minimal trap space of the node lies below a motif of every closed block that carries a motif"),
+           ("same_child_same_block", "same_child_same_block", "the block may be computed from the FIRST motif of a successor"),
+           ("block_expansion_complete", "expand_block_MinFound", "no minimal trap space is missed by block expansion (any options, any tape)"),
+           ("block_expansion_shapes", "expand_block_CanonOrFF", None),
+           ("aseeds_expansion_complete", "expand_aseeds_MinFound", None),
+           ("aseeds_expansion_leaves_minimal", "expand_aseeds_LeafOK", None),
+           ("work_list_descent", "min_good_found", None)],
  examples=EX_NET + """
 Example C03_example : length (min_traps_b ex_sw (top_space 4)) = 4.
 Proof. vm_compute. reflexivity. Qed.
+Example C03_example_block : length (minimal_ids (fst (expand_block 100 ex_sw ex_cfg (init ex_sw) false true None []))) = 4 /\\
+  size (fst (expand_block 100 ex_sw ex_cfg (init ex_sw) false true None [])) = 9.
+Proof. vm_compute. split; reflexivity. Qed.
 """)
 
 SPEC["C04"] = dict(title="Lazily built diagrams are always a faithful part of the full diagram", comment="""
@@ -94,7 +134,8 @@ such state yields a Hierarchy (bfs_complete + the invariants), i.e. the same dia
            ("bfs_complete", "bfs_complete", "continuing with an unrestricted BFS expands everything"),
            ("block_expansion_without_source_shortcuts_is_plain", "expand_block_Faithful", None),
            ("block_expansion_no_stub_edges", "expand_block_NoStubEdges", None), ("block_expansion_wellformed", "expand_block_SWF", None),
-           ("continuation_gives_the_fresh_hierarchy", "bfs_after_anything", None), ("hierarchy_unique", "hierarchy_unique_weak", None)],
+           ("continuation_gives_the_fresh_hierarchy", "bfs_after_anything", None), ("hierarchy_unique", "hierarchy_unique_weak", None),
+           ("aseeds_expansion_keeps_invariants", "expand_aseeds_PlainInv", None)],
  examples=EX_NET + """
 Example C04_example : Forall plain [OExpandNode 0; ODfs (Some 1) (Some 0) (Some 3); OBfs None (Some 1) None].
 Proof. repeat constructor. Qed.
@@ -105,11 +146,21 @@ PARTIAL, with a KNOWN FINDING (D4, see KNOWN_FINDINGS.jsonl): on the unchanged c
 attractors in the intersection of skip nodes are lost, so the full statement is false of the faithful model.
 What is proved: the structural part for skip operations (invariants, cache clearing), and the exactness of
 the predicates (check_seeds / check_seeds_sound run on the implementation's seeds against brute-force
-attractors).  The exclusion rule of skip nodes is emulated by the harness (verdict kind 'skiprule').""",
+attractors).  SkipRule.v models the documented exclusion rule under an IDEAL engine (every query returns exactly
+the attractors of the node outside the avoided spaces): C05_refuted exhibits, inside Coq, a network and history on
+which 8 of 16 attractors are represented by no node although every skip node follows the rule -- so the loss is a
+property of the rule, not of the candidate search; the same history is replayed on the code (corpus/C05.jsonl) and
+the model's per-node seed counts are compared with the code's on every modelable run.  ideal_seeds_sound is the
+half of the statement that survives (no spurious seeds).""",
  theorems=[("skip_ops_keep_wellformed", "step_SWF", None), ("skip_ops_keep_faithful", "step_Faithful_all", None),
            ("skip_ops_clear_caches", "step_CacheOK", "skipping discards attractor data computed while the node had no successors"),
            ("check_seeds_ok", "check_seeds_ok", None), ("edge_strict", "step_EdgeStrict", "skip edges lead to strictly smaller spaces (no self loops)"),
-           ("node_attractors_complete", "node_attractors_b_complete", None)],
+           ("node_attractors_complete", "node_attractors_b_complete", None),
+           ("refuted_on_the_model", "C05_refuted", "KNOWN FINDING D4: the full statement fails on the faithful model"),
+           ("refuted_attractor", "C05_refuted_attractor", None),
+           ("witness_counts", "d4_counts", "26 nodes, 16 attractors, 8 lost, none reported twice"),
+           ("ideal_seeds_sound", "ideal_seeds_sound", None),
+           ("rule_only_for_skip_nodes", "no_skip_no_exclusion", None)],
  examples="")
 
 SPEC["C06"] = dict(title="Every intervention reported successful really forces the network into the target", comment="""
@@ -189,7 +240,9 @@ pn_faithful_b is the exact executable test applied to the REAL Petri nets on eve
            ("restrict_no_fixed", "restrict_no_fixed", None), ("restrict_compose", "restrict_compose", "restriction through the parent's net"),
            ("pn_sources_spec", "pn_sources_spec", None), ("reduce_pn_enabled", "reduce_pn_enabled", None),
            ("fix_net_trap_space", "fix_net_trap_space", "percolating/fixing sources keeps the dynamics on the subspace"),
-           ("fix_net_percolate", "fix_net_percolate", None)],
+           ("fix_net_percolate", "fix_net_percolate", None),
+           ("place_round_trip", "place_round_trip", "place names b0_/b1_ map back to (variable, value)"),
+           ("place_name_inj", "place_name_inj", None)],
  examples="")
 
 SPEC["C11"] = dict(title="Percolation computes exactly the logical domain of influence", comment="""
@@ -237,7 +290,8 @@ symbolic_test_terminates bounds the interleaved reachability of symbolic_attract
 fix 2159c02) for every heuristic tape; noforce_can_stall is the formal record of the repaired defect: without
 the fix a tape that always declines makes the loop run forever on a 3-variable network.
 The candidate pipeline's loops (greedy flips, simulation rounds) and the block expansion have explicit bounds too.
-PARTIAL: the SCC strategy and the attractor-seed expansion are bounded by the back-edge budget and the watchdog only.""",
+The attractor-seed expansion terminates within 2 * 3^n + 3 iterations (expand_aseeds_terminates).
+PARTIAL: the SCC strategy is bounded by the back-edge budget and the watchdog only.""",
  theorems=[("size_bound", "size_bound", None), ("bfs_terminates", "bfs_terminates", None), ("dfs_terminates", "dfs_terminates", None),
            ("target_terminates", "target_terminates", None), ("min_terminates", "min_terminates", None),
            ("step_terminates", "step_terminates", None), ("run_terminates", "run_terminates", None),
@@ -247,7 +301,9 @@ PARTIAL: the SCC strategy and the attractor-seed expansion are bounded by the ba
            ("block_expansion_terminates", "expand_block_terminates", None),
            ("greedy_loop_terminates", "greedy_loop_fuel_irrelevant", "candidate pipeline: greedy flips"), ("simulation_rounds_terminate", "sim_rounds_fuel_irrelevant", None),
            ("candidate_pipeline_terminates", "compute_candidates_fuel_irrelevant", None), ("symbolic_test_terminates", "symbolic_test_terminates", None), ("unfixed_loop_can_stall", "noforce_can_stall", "defect D6, formally"),
-           ("fixed_loop_answers_on_that_instance", "stall_fixed_answer", None)],
+           ("fixed_loop_answers_on_that_instance", "stall_fixed_answer", None),
+           ("aseeds_expansion_terminates", "expand_aseeds_terminates", None),
+           ("sanitize_clash_loop_terminates", "fresh_total", "the rename loop of sanitize_network_names needs at most one more round than there are variables")],
  examples="")
 
 SPEC["C14"] = dict(title="Cached attractor data is never stale", comment="""
@@ -257,7 +313,8 @@ run compares which fields are set after every operation and judges the cached va
  theorems=[("step_CacheOK", "step_CacheOK", None), ("run_CacheOK", "run_CacheOK", None), ("expand_one_CacheOK", "expand_one_CacheOK", None),
            ("q_cands_CacheOK", "q_cands_CacheOK", None), ("q_seeds_CacheOK", "q_seeds_CacheOK", None), ("q_sets_CacheOK", "q_sets_CacheOK", None),
            ("reclaim_CacheOK", "reclaim_CacheOK", None), ("not_vacuous", "stale_not_CacheOK", "CacheOK really excludes stale data"),
-           ("block_expansion_CacheOK", "expand_block_CacheOK", "source shortcuts and clean-block bookkeeping of expand_block (after fix 3581ec3)")],
+           ("block_expansion_CacheOK", "expand_block_CacheOK", "source shortcuts and clean-block bookkeeping of expand_block (after fix 3581ec3)"),
+           ("aseeds_expansion_keeps_caches_valid", "expand_aseeds_CacheOK", None)],
  examples="")
 
 SPEC["C15"] = dict(title="Early stops and limit errors leave a valid, resumable diagram", comment="""
@@ -286,13 +343,48 @@ running two real diagrams side by side.""",
 SPEC["C17"] = dict(title="Results do not depend on how the network is written down", comment="""
 In the model a network IS its list of update functions on states, so logically equivalent formulas are
 extensionally equal networks (net_equiv).  Polarity flips act on nets, states and spaces.
-PARTIAL: variable reordering and name sanitisation are decided by the metamorphic run on the real code.""",
+Reordering the declarations is a permutation acting on nets, states and spaces (Perm.v): dynamics, trap spaces,
+percolation, maximal / minimal trap spaces, attractors and the whole fully expanded diagram are equivariant
+(perm_hierarchy).  Names.v models sanitize_network_names on code-point lists: total, solver-safe, distinct,
+position-preserving (so the dynamics is untouched), idempotent; place names round-trip.  dollar_test_unsafe is the
+formal record of the repaired defect D16 (a name ending in a newline passed the `$` test).  The model's output is
+compared with the code's on every run.  PARTIAL: the text formats (bnet / aeon / sbml) are AEON's parsers and are
+covered by the metamorphic run only.""",
  theorems=[("equiv_trap_space", "equiv_trap_space", None), ("equiv_percolate", "equiv_percolate", None), ("equiv_max_traps", "equiv_max_traps", None),
            ("equiv_min_traps", "equiv_min_traps", None), ("equiv_attractor", "equiv_attractor", None),
            ("flip_trap_space", "flip_trap_space", None), ("flip_percolate", "flip_percolate", None), ("flip_min_trap", "flip_min_trap", None),
            ("flip_max_trap", "flip_max_trap", None), ("flip_attractor", "flip_attractor_weak", "attractors, restricted to well-formed states"),
-           ("flip_trans", "flip_trans_weak", None)],
- examples="")
+           ("flip_trans", "flip_trans_weak", None),
+           ("perm_trans", "perm_trans", "reordering: the asynchronous dynamics"),
+           ("perm_reach", "perm_reach", None),
+           ("perm_attractor", "perm_attractor_weak", "attractors (sets of well-formed states)"),
+           ("perm_trap_space", "perm_trap_space", None),
+           ("perm_percolate", "perm_percolate", None),
+           ("perm_min_trap", "perm_min_trap", None),
+           ("perm_max_trap_in", "perm_max_trap_in", None),
+           ("perm_max_traps", "perm_max_traps_b", "the solver model returns the permuted maximal trap spaces"),
+           ("perm_min_traps", "perm_min_traps_b", None),
+           ("perm_sources", "perm_sources", None),
+           ("perm_hierarchy", "perm_hierarchy", "the fully expanded diagrams of a network and of its reordering have the same node spaces and edges up to the permutation"),
+           ("sanitize_total", "sanitize_total", "name sanitisation"),
+           ("sanitize_valid", "sanitize_valid", None),
+           ("sanitize_distinct", "sanitize_distinct", None),
+           ("sanitize_length", "sanitize_length", None),
+           ("sanitize_keeps_valid", "sanitize_keeps_valid", None),
+           ("sanitize_renamed_shape", "sanitize_renamed_shape", None),
+           ("sanitize_idempotent", "sanitize_idempotent", None),
+           ("check_only_spec", "check_only_spec", None),
+           ("place_round_trip", "place_round_trip", None),
+           ("place_name_inj", "place_name_inj", None),
+           ("dollar_test_unsafe", "dollar_test_unsafe", "defect D16, formally")],
+ examples="""
+Example C17_example_perm : is_perm 3 [2; 0; 1] /\\ perm_state [2; 0; 1] [true; false; false] = [false; true; false] /\\
+  perm_state (inv_perm [2; 0; 1]) [false; true; false] = [true; false; false].
+Proof. split; [|split; reflexivity]. unfold is_perm. simpl. apply (Permutation_cons_app [0; 1] [] 2). simpl. apply Permutation_refl. Qed.
+(* "a<newline>", "a{", "a_"  ->  "_a_", "__a_", "a_" *)
+Example C17_example_sanitize : sanitize [[97; 10]; [97; 123]; [97; 95]]%N = Some [[95; 97; 95]; [95; 95; 97; 95]; [97; 95]]%N.
+Proof. vm_compute. reflexivity. Qed.
+""")
 
 SPEC["C18"] = dict(title="Results compose across independent and input-conditioned sub-networks", comment="""
 PARTIAL: the third clause (agreement with an independent symbolic computation on the published models)
